@@ -240,3 +240,79 @@ package object
 //@ func object.SymHash2Str(h) res, ok
 //@   requires held == 0
 //@   ensures  held == old(held)
+//
+// ---- the evaluation frame EC (C03, C06, C14, C19) -------------------------------------------
+// What an evaluating function may write on objects that existed before it was called: variables
+// (Env.Store), the environment slot of an iterator, the stack trace of an error, the captured
+// counters of built-in iterators and other address-taken local variables, the symbol tables, and the
+// lexer/parser state of a nested evalStr/import. Nothing else: in particular no field or backing array of any value.
+//@ frame EC: map uint64 object.PanObject, field object.PanErr.StackTrace, field object.PanFunc.Env
+//@ frame EC: map string uint64, map uint64 *object.PanStr
+//@ frame EC: cell int64, cell int, cell bool, cell string, cell object.PanObject, cell *object.PanArr, cell *object.PanObj
+// Every function value of these types satisfies the EC frame (that is what the FRAME sweep proves for each
+// function that is converted to one of them), so a call through such a value has at most EC effects.
+//@ frame ECfuncs: object.BuiltInFunc, evaluator._PropCallMiddlewareHandler, evaluator._LiteralCallMiddlewareHandler, evaluator._PropCallMiddleware, evaluator._LiteralCallMiddleware
+// Every function of package evaluator is held to the EC frame unless its contract says otherwise.
+//@ frame default: evaluator EC
+// Constructor-like function values: write nothing that existed before the call (object.panObjOption writes
+// only the final field PanObj.zero of the object under construction).
+//@ frame PUREfuncs: object.panObjOption, func(string) *object.PanErr, func(int64) object.PanObject, func(object.PanObject) object.PanObject, func(*object.PanRange, object.PanObject) (bool, *object.PanErr), func(*object.PanObj) object.PanObject
+//
+// ---- C06/C09: constructors and the few functions that write through their arguments -------------
+//@ props C06 C09 C19
+//@ func object.PanObjInstance(pairs) res
+//@   requires pairs != nil
+//@   ensures  res.Pairs == pairs && res.Keys != nil && res.PrivateKeys != nil && res.proto == BuiltInObjObj
+//@   ensures  fresh(res.Keys) && fresh(res.PrivateKeys)
+//@   assigns  nothing
+//
+//@ func object.EmptyPanObjPtr() res
+//@   ensures  res != nil && fresh(res) && res.Pairs != nil && fresh(res.Pairs) && fresh(*res.Pairs) && res.Keys != nil && res.PrivateKeys != nil
+//@   ensures  len(*res.Pairs) == 0
+//@   assigns  nothing
+//
+//@ func object.PanObjInstancePtr(pairs) res
+//@   requires pairs != nil
+//@   ensures  isT(res, *PanObj) && fresh(res) && as(res, *PanObj).Pairs == pairs && as(res, *PanObj).Keys != nil && as(res, *PanObj).PrivateKeys != nil
+//@   assigns  nothing
+//
+// AddPairs is the one mutator of an object: it writes the object's pair table and key lists. Every caller
+// must own both (freshly built kwargs) - or be start-up dependency injection (di, not swept).
+//@ func object.(*PanObj).AddPairs(o, pairs) err
+//@   requires o != nil && o.Pairs != nil && *o.Pairs != nil
+//@   assigns  o, *o.Pairs
+//
+//@ func object.keyHashes(pairs) pub, priv
+//@   requires pairs != nil
+//@   ensures  fresh(pub) && fresh(priv)
+//@   assigns  nothing
+//@   loop 1 invariant fresh(publicKeyStrs) && fresh(privateKeyStrs)
+//@   loop 2 invariant fresh(publicHashes)
+//@   loop 3 invariant fresh(privateHashes)
+//
+//@ func object.NewInheritedMap(proto, pairs) res
+//@   ensures  res != nil && fresh(res) && res.proto == proto && res.Pairs != nil && res.HashKeys != nil && res.NonHashablePairs != nil
+//@   ensures  fresh(res.Pairs) && fresh(res.HashKeys) && fresh(res.NonHashablePairs) && fresh(*res.Pairs) && fresh(*res.HashKeys) && fresh(*res.NonHashablePairs)
+//@   assigns  nothing
+//@   loop 1 invariant fresh(hashKeys) && fresh(nonHashablePairs) && fresh(pairMap) && pairMap != nil
+//
+//@ func object.NewPanMap(pairs) res
+//@   ensures  res != nil && fresh(res) && res.proto == BuiltInMapObj && res.Pairs != nil && res.HashKeys != nil && res.NonHashablePairs != nil
+//@   assigns  nothing
+//
+//@ func object.sortedPairsString(pairs) res
+//@   assigns  nothing
+//@   loop 1 invariant fresh(pairStrs)
+//@   loop 2 invariant fresh(sortedStrs)
+//@ func object.sortedPairsRepr(pairs) res
+//@   assigns  nothing
+//@   loop 1 invariant fresh(pairStrs)
+//@   loop 2 invariant fresh(sortedStrs)
+//
+// the option closures write the zero value of the object under construction
+//@ func object.WithZero$1(o)
+//@   requires o != nil
+//@   assigns  o
+//@ func object.WithZeroFromSelf$1(o)
+//@   requires o != nil && f != nil
+//@   assigns  o
